@@ -198,12 +198,19 @@ Inductive sgv : gtype -> gval -> Prop :=
 | sg_struct a ty fs c gfs : a <> 0 -> ty_of a = ty -> nm_lookup nm ty = Some c -> tm_lookup tm c = Some (TStruct ty) ->
     te_lookup te ty = Some gfs ->
     Forall valid_rune c -> map lower_name (map fst fs) = F c -> Forall (Forall valid_rune) (F c) ->
-    Z.of_nat (length fs) <= 2147483647 ->
+    Z.of_nat (length fs) <= 2147483647 -> has_dup (bound_names gfs (F c)) = false ->      (* no Go field is bound by two wire names *)
     (* the rendering lists ANY fields in ANY order: those with a Go counterpart carry a value of that field's type,
        the others any value of the fragment *)
     Forall (fun f => forall gn gt, find_field gfs (lower_name (fst f)) = Some (gn, gt) -> sgv gt (snd f)) fs ->
     Forall (fun f => find_field gfs (lower_name (fst f)) = None -> exists t', t' <> TIface /\ sgv t' (snd f) /\ elem_pos_ok (snd f)) fs ->
-    sgv (TPtr (TStruct ty)) (VStruct a ty fs).
+    sgv (TPtr (TStruct ty)) (VStruct a ty fs)
+| sg_structv ty fs c gfs : nm_lookup nm ty = Some c -> tm_lookup tm c = Some (TStruct ty) ->
+    te_lookup te ty = Some gfs ->
+    Forall valid_rune c -> map lower_name (map fst fs) = F c -> Forall (Forall valid_rune) (F c) ->
+    Z.of_nat (length fs) <= 2147483647 -> has_dup (bound_names gfs (F c)) = false ->
+    Forall (fun f => forall gn gt, find_field gfs (lower_name (fst f)) = Some (gn, gt) -> sgv gt (snd f)) fs ->
+    Forall (fun f => find_field gfs (lower_name (fst f)) = None -> exists t', t' <> TIface /\ sgv t' (snd f) /\ elem_pos_ok (snd f)) fs ->
+    sgv (TStruct ty) (VStruct 0 ty fs).                                          (* a struct held by value *)
 
 (* the decoded graph: the value at this position, and the heap cells created for the objects
    met for the first time, in order *)
@@ -223,6 +230,10 @@ Inductive dg : list (Z * rkind) -> gval -> dval -> list rcell -> list (Z * rkind
     (* every Go field holds the value of the wire field of its name (the last one, if repeated), else its zero value *)
     dg refs (VStruct a ty fs) (DPtr (length refs) ty)
        (RObj ty (Some (assoc_all (zeros_of te gfs) (bind_known gfs (map fst fs) ds))) :: cells) refs'
+| dg_newv refs ty fs gfs ds cells refs' : te_lookup te ty = Some gfs ->
+    dgs (refs ++ [(0, RStruct)]) (map snd fs) ds cells refs' ->
+    dg refs (VStruct 0 ty fs) (DStructV ty (assoc_all (zeros_of te gfs) (bind_known gfs (map fst fs) ds)))
+       (RObj ty (Some (assoc_all (zeros_of te gfs) (bind_known gfs (map fst fs) ds))) :: cells) refs'          (* held by value: a copy *)
 | dg_slice refs ty l e ds cells refs' : dgs (refs ++ [(0, RSlice)]) l ds cells refs' ->
     dg refs (VSlice 0 ty l) (DSlice e ds) (RList (Some (DSlice e ds)) :: cells) refs'
 | dg_map0 refs ty kt vt : dg refs (VMap 0 ty []) (DMapV kt vt []) [] refs                 (* nil and empty maps: null on the wire *)
@@ -237,17 +248,47 @@ with dges : list (Z * rkind) -> list (gval * gval) -> list (dval * dval) -> list
 | dges_cons refs k x r dk dx des c1 c2 c3 refs1 refs2 refs3 : dg refs k dk c1 refs1 -> dg refs1 x dx c2 refs2 -> dges refs2 r des c3 refs3 ->
     dges refs ((k, x) :: r) ((dk, dx) :: des) (c1 ++ c2 ++ c3) refs3.
 
-Definition ref_tag (p : Z * rkind) : option name := match snd p with RStruct => Some (ty_of (fst p)) | _ => None end.
+Definition cell_kind (c : rcell) : rkind :=
+  match c with RObj _ _ => RStruct | RList _ => RSlice | Decoder.RMap _ => Encoder.RMap end.
+(* encoder and decoder in step: same class table; one heap cell per registered container, of the
+   same kind; the cell of an object reached through a pointer has the type of that object *)
 Definition Inv (st : estate) (dst : dstate) : Prop :=
-  dcls dst = ecls st /\ map cell_ty (dheap dst) = map ref_tag (erefs st).
+  dcls dst = ecls st /\ map cell_kind (dheap dst) = map snd (erefs st) /\
+  (forall i a, nth_error (erefs st) i = Some (a, RStruct) -> a <> 0 -> exists o, nth_error (dheap dst) i = Some (RObj (ty_of a) o)).
 Lemma Inv_len st dst : Inv st dst -> length (dheap dst) = length (erefs st).
-Proof. intros [_ H]. rewrite <- (map_length cell_ty), H, map_length. reflexivity. Qed.
-Lemma Inv_nth st dst i a : Inv st dst -> nth_error (erefs st) i = Some (a, RStruct) -> exists o, nth_error (dheap dst) i = Some (RObj (ty_of a) o).
+Proof. intros (_ & H & _). rewrite <- (map_length cell_kind), H, map_length. reflexivity. Qed.
+Lemma Inv_nth st dst i a : Inv st dst -> nth_error (erefs st) i = Some (a, RStruct) -> a <> 0 -> exists o, nth_error (dheap dst) i = Some (RObj (ty_of a) o).
+Proof. intros (_ & _ & H). apply H. Qed.
+Lemma Inv_push st dst st1 dstX c a k : Inv st dst -> dcls dstX = ecls st1 -> dheap dstX = dheap dst ->
+  erefs st1 = erefs st ++ [(a, k)] -> cell_kind c = k -> (k = RStruct -> a <> 0 -> exists o, c = RObj (ty_of a) o) ->
+  Inv st1 (heap_push dstX c).
 Proof.
-  intros [_ H] N. pose proof (map_nth_error ref_tag i (erefs st) N) as M. cbn in M. rewrite <- H in M.
-  destruct (nth_error (dheap dst) i) as [c|] eqn:E.
-  - rewrite (map_nth_error cell_ty i (dheap dst) E) in M. inversion M as [M']. destruct c; try discriminate. cbn in M'. inversion M'. eexists; reflexivity.
-  - apply nth_error_None in E. assert (nth_error (map cell_ty (dheap dst)) i = None) by (apply nth_error_None; rewrite map_length; exact E). congruence.
+  intros I DC DH ER CK CT. pose proof (Inv_len _ _ I) as IL. destruct I as (I1 & I2 & I3).
+  split; [exact DC|]. cbn [heap_push dheap]. rewrite DH, ER. split; [rewrite !map_app, I2; cbn; rewrite CK; reflexivity|].
+  intros i a0 N NZ. destruct (Nat.lt_ge_cases i (length (erefs st))) as [L|L].
+  - rewrite nth_error_app1 in N by exact L. rewrite nth_error_app1 by (rewrite IL; exact L). apply I3; assumption.
+  - rewrite nth_error_app2 in N by exact L. rewrite nth_error_app2 by (rewrite IL; exact L). rewrite IL.
+    destruct (i - length (erefs st))%nat as [|j]; [|destruct j; discriminate]. cbn in N. inversion N as [[Na Nk]]. subst a0.
+    destruct (CT Nk NZ) as [o ->]. eexists; reflexivity.
+Qed.
+Lemma Inv_fill st' dst2 pre c c' post : Inv st' dst2 -> dheap dst2 = pre ++ c :: post -> cell_kind c' = cell_kind c ->
+  (forall ty o, c = RObj ty o -> exists o', c' = RObj ty o') ->
+  Inv st' (heap_set dst2 (length pre) c') /\ dheap (heap_set dst2 (length pre) c') = pre ++ c' :: post.
+Proof.
+  intros (I1 & I2 & I3) H CK CT.
+  assert (HH : dheap (heap_set dst2 (length pre) c') = pre ++ c' :: post) by (unfold heap_set; cbn [dheap]; rewrite H; apply list_set_app).
+  split; [|exact HH]. split; [exact I1|]. rewrite HH. split.
+  - rewrite <- I2, H, !map_app. cbn [map]. rewrite CK. reflexivity.
+  - intros i a N NZ. destruct (I3 i a N NZ) as [o E]. rewrite H in E.
+    destruct (Nat.lt_ge_cases i (length pre)) as [L|L].
+    + rewrite nth_error_app1 in E by exact L. rewrite nth_error_app1 by exact L. eexists; exact E.
+    + rewrite nth_error_app2 in E by exact L. rewrite nth_error_app2 by exact L.
+      destruct (i - length pre)%nat as [|j]; [|eexists; exact E]. cbn in E |- *. inversion E as [E']. destruct (CT _ _ E') as [o' ->]. eexists; reflexivity.
+Qed.
+Lemma ref_find_nonzero : forall refs a k i0 i, ref_find refs a k i0 = Some i -> a <> 0.
+Proof.
+  induction refs as [|[b kb] r IH]; intros a k i0 i H; cbn [ref_find] in H; [discriminate|].
+  destruct ((b =? a) && rkind_eqb k kb && negb (a =? 0)) eqn:E; [|eapply IH; exact H]. lia.
 Qed.
 
 Definition rt_post (t : gtype) (v : gval) (st st' : estate) : Prop :=
@@ -257,9 +298,9 @@ Definition rt_post (t : gtype) (v : gval) (st st' : estate) : Prop :=
        exists dst', Inv st' dst' /\ dheap dst' = dheap dst ++ cells /\
        forall f, (need_d v <= f)%nat ->
          R_rf (readers_at te tm f) t dst (bs ++ rest) = Ok (d, rest, dst') /\
-         (forall a ty fs, v = VStruct a ty fs -> R_rd (readers_at te tm f) dst (bs ++ rest) = Ok (d, rest, dst')) /\
+         (forall a ty fs, v = VStruct a ty fs -> a <> 0 -> R_rd (readers_at te tm f) dst (bs ++ rest) = Ok (d, rest, dst')) /\
          (t <> TIface -> elem_pos_ok v ->
-            exists d0, R_rd (readers_at te tm f) dst (bs ++ rest) = Ok (d0, rest, dst') /\ forall heap, set_value te heap t d0 = Ok d)).
+            exists d0, R_rd (readers_at te tm f) dst (bs ++ rest) = Ok (d0, rest, dst') /\ set_value te (dheap dst') t d0 = Ok d)).
 Definition rt_ok (v : gval) : Prop := forall t st st',
   enm st = nm -> sgv t v -> cls_ok F (ecls st) -> write_data v st = Ok st' -> rt_post t v st st'.
 
@@ -283,7 +324,7 @@ Proof.
   exists bs, d, []. split; [apply ebytes_emit|]. split; [exact LB|]. split; [exact D|].
   intros _ dst rest I. exists dst. split; [exact I|]. split; [rewrite app_nil_r; reflexivity|].
   intros f Hf. pose proof (need_d_pos v). destruct f as [|f]; [lia|]. split; [rewrite rf_S; apply P|].
-  split; [intros a ty fs E; exfalso; eapply NS; exact E|]. intros _ _. apply PE.
+  split; [intros a ty fs E _; exfalso; eapply NS; exact E|]. intros _ _. destruct (PE f dst rest) as (d0 & A & B). exists d0. split; [exact A|apply B].
 Qed.
 Lemma elem_of_rd R t dst bs d0 d rest dst' : R_rd R dst bs = Ok (d0, rest, dst') -> set_value te (dheap dst') t d0 = Ok d -> t <> TIface ->
   elem_step te R t dst bs = Ok (d, rest, dst').
@@ -371,7 +412,7 @@ Proof.
   split; [unfold write_ref; rewrite !ebytes_emit, <- app_assoc; reflexivity|]. split; [cbn; lia|]. split; [exact D|].
   intros Sm dst rest I. exists dst. split; [exact I|]. split; [rewrite app_nil_r; reflexivity|].
   destruct (ref_find_nth _ _ _ _ _ RF) as [B N]. replace (i - 0) with i in N by lia.
-  destruct (Inv_nth _ _ _ _ I N) as [o HN]. pose proof (Inv_len _ _ I) as IL.
+  destruct (Inv_nth _ _ _ _ I N (ref_find_nonzero _ _ _ _ _ RF)) as [o HN]. pose proof (Inv_len _ _ I) as IL.
   destruct Sm as [Sm1 _]. cbn [erefs write_ref emit] in Sm1.
   assert (RR : read_ref dst (gencodeInt (swrap 32 i) ++ rest) = Ok (DPtr (Z.to_nat i) (ty_of a), rest, dst)).
   { unfold read_ref. rewrite int_roundtrip by apply swrap32_range. cbn [bind]. rewrite swrap32_id by (unfold in_i32; lia).
@@ -381,8 +422,8 @@ Proof.
     by (cbn [set_value]; rewrite name_eqb_refl'; reflexivity).
   intros f Hf. pose proof (need_d_pos v). destruct f as [|f]; [lia|]. split; [|split].
   - rewrite rf_S. unfold rf_step. cbn [app]. rewrite rs_ref, RR. cbn [bind]. rewrite SV. reflexivity.
-  - intros a0 ty fs E. rewrite rd_S. cbn [app]. rewrite rd_ref. exact RR.
-  - intros _ _. eexists. split; [rewrite rd_S; cbn [app]; rewrite rd_ref; exact RR|]. intros heap. cbn [set_value]. rewrite name_eqb_refl'. reflexivity.
+  - intros a0 ty fs E _. rewrite rd_S. cbn [app]. rewrite rd_ref. exact RR.
+  - intros _ _. eexists. split; [rewrite rd_S; cbn [app]; rewrite rd_ref; exact RR|exact SV].
 Qed.
 
 (* ---- the fields of an object ---- *)
@@ -463,18 +504,26 @@ Lemma zeros_combine (gfs : list (name * gtype)) :
   map (fun p => (fst p, zero te (snd p))) gfs = combine (map fst gfs) (map (fun p => zero te (snd p)) gfs).
 Proof. induction gfs as [|[n t] r IH]; cbn [map combine fst snd]; [reflexivity|]. f_equal. exact IH. Qed.
 
-Lemma rt_struct_new a ty fs c gfs st st' :
-  ty_of a = ty -> nm_lookup nm ty = Some c -> tm_lookup tm c = Some (TStruct ty) -> te_lookup te ty = Some gfs ->
+Lemma struct_core a ty fs c gfs st st' :
+  (a <> 0 -> ty_of a = ty) -> nm_lookup nm ty = Some c -> tm_lookup tm c = Some (TStruct ty) -> te_lookup te ty = Some gfs ->
   Forall valid_rune c -> map lower_name (map fst fs) = F c ->
-  Forall (Forall valid_rune) (F c) -> Z.of_nat (length fs) <= 2147483647 ->
+  Forall (Forall valid_rune) (F c) -> Z.of_nat (length fs) <= 2147483647 -> has_dup (bound_names gfs (F c)) = false ->
   Forall (fun f => forall gn gt, find_field gfs (lower_name (fst f)) = Some (gn, gt) -> sgv gt (snd f)) fs ->
   Forall (fun f => find_field gfs (lower_name (fst f)) = None -> exists t', t' <> TIface /\ sgv t' (snd f) /\ elem_pos_ok (snd f)) fs ->
   Forall (fun f => rt_ok (snd f)) fs ->
-  enm st = nm -> cls_ok F (ecls st) -> ref_find (erefs st) a RStruct 0 = None ->
+  enm st = nm -> cls_ok F (ecls st) ->
   write_fields fs (struct_prefix {| ecls := ecls st; erefs := erefs st ++ [(a, RStruct)]; enm := enm st; eout := eout st |} ty fs) = Ok st' ->
-  rt_post (TPtr (TStruct ty)) (VStruct a ty fs) st st'.
+  cls_ok F (ecls st') /\ enm st' = enm st /\ grows st st' /\
+  exists bs ds cells, ebytes st' = ebytes st ++ bs /\ (1 <= length bs)%nat /\
+    dgs (erefs st ++ [(a, RStruct)]) (map snd fs) ds cells (erefs st') /\
+    (small st' -> forall dst rest, Inv st dst ->
+       exists dst', Inv st' dst' /\
+         dheap dst' = dheap dst ++ RObj ty (Some (assoc_all (zeros_of te gfs) (bind_known gfs (map fst fs) ds))) :: cells /\
+         forall f, (need_d (VStruct a ty fs) <= f)%nat ->
+           (forall g, f = S g -> read_struct tm (readers_at te tm g) dst (bs ++ rest) = Ok (DPtr (length (erefs st)) ty, rest, dst')) /\
+           R_rd (readers_at te tm f) dst (bs ++ rest) = Ok (DPtr (length (erefs st)) ty, rest, dst')).
 Proof.
-  intros TA NL TM TE Vc HF VF LN HK HU HR En C RF W.
+  intros TA NL TM TE Vc HF VF LN NDB HK HU HR En C W.
   set (st1 := {| ecls := ecls st; erefs := erefs st ++ [(a, RStruct)]; enm := enm st; eout := eout st |}) in *.
   assert (NL1 : nm_lookup (enm st1) ty = Some c) by (cbn [enm st1]; rewrite En; exact NL).
   destruct (struct_prefix_bytes st1 ty fs c NL1) as (P1 & P2 & PC).
@@ -490,38 +539,33 @@ Proof.
   { destruct (cls_index (ecls st1) c 0); destruct PC as [PC1 _]; rewrite PC1; [lia|rewrite app_length; cbn; lia]. }
   split; [exact C2|]. split; [rewrite N2, P2; reflexivity|].
   split; [destruct G2 as [G21 G22]; split; [rewrite P1 in G21; cbn [erefs st1] in G21; rewrite app_length in G21; cbn in G21; lia|cbn [ecls st1] in G14; lia]|].
-  (* the bytes *)
   assert (HB : exists hdr, ebytes st4 = ebytes st ++ hdr).
   { destruct (cls_index (ecls st1) c 0); destruct PC as [_ PC2]; eexists; exact PC2. }
   destruct HB as [hdr HB].
   assert (LH : (1 <= length hdr)%nat).
   { destruct (cls_index (ecls st1) c 0); destruct PC as [_ PC2]; rewrite PC2 in HB; apply app_inv_head in HB; subst hdr;
       [unfold tagbytes; destruct (_ <=? 15); cbn; lia|cbn; lia]. }
-  exists (hdr ++ b2), (DPtr (length (erefs st)) ty), (RObj ty (Some (assoc_all (zeros_of te gfs) (bind_known gfs (map fst fs) ds))) :: c2).
+  exists (hdr ++ b2), ds, c2.
   split; [rewrite B2, HB, <- app_assoc; reflexivity|]. split; [rewrite app_length; lia|].
-  split; [apply dg_new; [exact RF|exact TE|rewrite P1 in D2; exact D2]|].
-  intros Sm dst rest I. pose proof (Inv_len _ _ I) as IL. destruct I as [I1 I2].
+  split; [rewrite P1 in D2; exact D2|].
+  intros Sm dst rest I. pose proof (Inv_len _ _ I) as IL. pose proof I as I0. destruct I as (I1 & I2 & I3).
   pose proof (small_back _ _ G2 Sm) as Sm4.
-  (* the decoder state after the class definition (if any), with the cell of the new object *)
   set (dstC := {| dtypes := dtypes dst; dcls := ecls st4; dheap := dheap dst |}).
   assert (IP : Inv st4 (heap_push dstC (RObj ty None))).
-  { split; [reflexivity|]. cbn [heap_push dheap dstC]. rewrite map_app, I2, P1. cbn [erefs st1]. rewrite map_app. cbn. unfold ref_tag. cbn. rewrite TA. reflexivity. }
+  { eapply (Inv_push st dst st4 dstC (RObj ty None) a RStruct I0); [reflexivity|reflexivity|rewrite P1; reflexivity|reflexivity|].
+    intros _ NZ. rewrite (TA NZ). eexists; reflexivity. }
   destruct (PF Sm (heap_push dstC (RObj ty None)) rest IP) as (dst2 & J2 & H2h & V2).
-  cbn [heap_push dheap dtypes dstC] in H2h.
+  cbn [heap_push dheap dtypes dstC] in H2h. rewrite <- app_assoc in H2h. cbn [app] in H2h.
   set (fields' := assoc_all (zeros_of te gfs) (bind_known gfs (map fst fs) ds)).
-  set (dst' := heap_set dst2 (length (dheap dst)) (RObj ty (Some fields'))).
-  assert (HH : dheap dst' = dheap dst ++ RObj ty (Some fields') :: c2).
-  { unfold dst', heap_set. cbn [dheap]. rewrite H2h, <- app_assoc. cbn [app]. apply list_set_app. }
-  exists dst'. split.
-  { destruct J2 as [J21 J22]. split; [exact J21|]. rewrite HH. rewrite <- J22, H2h, <- app_assoc. rewrite !map_app. reflexivity. }
-  split; [exact HH|].
-  (* reading the instance once the class table holds the class *)
+  destruct (Inv_fill st' dst2 (dheap dst) (RObj ty None) (RObj ty (Some fields')) c2 J2 H2h eq_refl) as [IF HH].
+  { intros ty0 o X. inversion X; subst. eexists; reflexivity. }
+  set (dst' := heap_set dst2 (length (dheap dst)) (RObj ty (Some fields'))) in *.
+  exists dst'. split; [exact IF|]. split; [exact HH|].
   assert (RO : forall g dstX, (need_ditems (map snd fs) <= g)%nat -> dstX = dstC ->
     R_ro (readers_at te tm (S g)) ty (F c) dstX (b2 ++ rest) = Ok (DPtr (length (dheap dst)) ty, rest, dst')).
-  { intros g dstX Hg ->. rewrite ro_S. unfold ro_step. rewrite TE. cbv zeta. rewrite <- HF.
+  { intros g dstX Hg ->. rewrite ro_S. unfold ro_step. rewrite TE, NDB. cbv zeta. rewrite <- HF.
     rewrite (V2 g _ Hg). reflexivity. }
   intros f Hf. rewrite need_d_struct in Hf.
-  assert (SV : set_value te (dheap dst') (TPtr (TStruct ty)) (DPtr (length (dheap dst)) ty) = Ok (DPtr (length (dheap dst)) ty)) by (cbn [set_value]; rewrite name_eqb_refl'; reflexivity).
   rewrite IL in *.
   destruct (cls_index (ecls st1) c 0) as [i|] eqn:CI; destruct PC as [PC1 PC2].
   - (* class already defined *)
@@ -537,20 +581,16 @@ Proof.
     destruct Sm4 as [_ Sm42]. rewrite PC1 in Sm42. cbn [ecls st1] in Sm42.
     destruct f as [|[|g]]; try lia.
     destruct (obj_tag_dec (readers_at te tm (S g)) dst i (b2 ++ rest) ltac:(lia)) as [OT1 OT2].
-    rewrite <- app_assoc.
-    assert (RD : R_rd (readers_at te tm (S (S g))) dst (tagbytes i ++ b2 ++ rest) = Ok (DPtr (length (erefs st)) ty, rest, dst'))
-      by (rewrite rd_S, OT2, OA by lia; reflexivity).
-    split; [|split].
-    + rewrite rf_S. unfold rf_step. rewrite OT1, OA by lia. cbn [bind]. rewrite SV. reflexivity.
-    + intros a0 ty0 fs1 _. exact RD.
-    + intros _ _. eexists. split; [exact RD|]. intros heap. cbn [set_value]. rewrite name_eqb_refl'. reflexivity.
+    rewrite <- app_assoc. split.
+    + intros g0 E0. inversion E0; subst g0. rewrite OT1, OA by lia. reflexivity.
+    + rewrite rd_S, OT2, OA by lia. reflexivity.
   - (* a new class: its definition comes first *)
     cbn [ecls st1] in PC1, PC2.
     set (idx := Z.of_nat (length (ecls st))) in *.
     assert (hdr = [67] ++ encode_string c ++ gencodeInt (swrap 32 (Z.of_nat (length (map fst fs)))) ++
                   concat (map encode_string (map lower_name (map fst fs))) ++ tagbytes idx)
       by (rewrite PC2 in HB; apply app_inv_head in HB; symmetry; exact HB). subst hdr.
-    rewrite HF in *. 
+    rewrite HF in *.
     assert (RC : forall tail, read_class_def dst (encode_string c ++ gencodeInt (swrap 32 (Z.of_nat (length (map fst fs)))) ++
                     concat (map encode_string (F c)) ++ tail) = Ok (tt, tail, dstC)).
     { intros tail. rewrite map_length, <- LF. rewrite read_class_def_app; [|exact Vc|exact VF|pose proof LN as X; rewrite <- LF in X; exact X].
@@ -562,15 +602,65 @@ Proof.
     destruct Sm4 as [_ Sm42]. rewrite PC1, app_length in Sm42. cbn in Sm42.
     destruct f as [|[|[|g]]]; try lia.
     destruct (obj_tag_dec (readers_at te tm (S g)) dstC idx (b2 ++ rest) ltac:(unfold idx; lia)) as [_ OT2].
-    rewrite <- !app_assoc. cbn [app].
-    assert (RD : R_rd (readers_at te tm (S (S (S g)))) dst
-                   (67 :: encode_string c ++ gencodeInt (swrap 32 (Z.of_nat (length (map fst fs)))) ++ concat (map encode_string (F c)) ++ tagbytes idx ++ b2 ++ rest)
-                 = Ok (DPtr (length (erefs st)) ty, rest, dst'))
-      by (rewrite rd_S, rd_classdef, RC; cbn [bind snd]; rewrite rd_S, OT2, OA by lia; reflexivity).
-    split; [|split].
-    + rewrite rf_S. unfold rf_step. rewrite rs_classdef, RC. cbn [bind snd]. rewrite rd_S, OT2, OA by lia. cbn [bind]. rewrite SV. reflexivity.
-    + intros a0 ty0 fs1 _. exact RD.
-    + intros _ _. eexists. split; [exact RD|]. intros heap. cbn [set_value]. rewrite name_eqb_refl'. reflexivity.
+    rewrite <- !app_assoc. cbn [app]. split.
+    + intros g0 E0. inversion E0; subst g0. rewrite rs_classdef, RC. cbn [bind snd]. rewrite rd_S, OT2, OA by lia. reflexivity.
+    + rewrite rd_S, rd_classdef, RC. cbn [bind snd]. rewrite rd_S, OT2, OA by lia. reflexivity.
+Qed.
+
+(* ... reached through a pointer: the position holds the index of the new cell *)
+Lemma rt_struct_new a ty fs c gfs st st' :
+  a <> 0 -> ty_of a = ty -> nm_lookup nm ty = Some c -> tm_lookup tm c = Some (TStruct ty) -> te_lookup te ty = Some gfs ->
+  Forall valid_rune c -> map lower_name (map fst fs) = F c ->
+  Forall (Forall valid_rune) (F c) -> Z.of_nat (length fs) <= 2147483647 -> has_dup (bound_names gfs (F c)) = false ->
+  Forall (fun f => forall gn gt, find_field gfs (lower_name (fst f)) = Some (gn, gt) -> sgv gt (snd f)) fs ->
+  Forall (fun f => find_field gfs (lower_name (fst f)) = None -> exists t', t' <> TIface /\ sgv t' (snd f) /\ elem_pos_ok (snd f)) fs ->
+  Forall (fun f => rt_ok (snd f)) fs ->
+  enm st = nm -> cls_ok F (ecls st) -> ref_find (erefs st) a RStruct 0 = None ->
+  write_fields fs (struct_prefix {| ecls := ecls st; erefs := erefs st ++ [(a, RStruct)]; enm := enm st; eout := eout st |} ty fs) = Ok st' ->
+  rt_post (TPtr (TStruct ty)) (VStruct a ty fs) st st'.
+Proof.
+  intros NZ TA NL TM TE Vc HF VF LN NDB HK HU HR En C RF W.
+  destruct (struct_core a ty fs c gfs st st' (fun _ => TA) NL TM TE Vc HF VF LN NDB HK HU HR En C W) as (C2 & N2 & G2 & bs & ds & cells & B & LB & DS & P).
+  split; [exact C2|]. split; [exact N2|]. split; [exact G2|].
+  exists bs, (DPtr (length (erefs st)) ty), (RObj ty (Some (assoc_all (zeros_of te gfs) (bind_known gfs (map fst fs) ds))) :: cells).
+  split; [exact B|]. split; [exact LB|]. split; [apply dg_new; assumption|].
+  intros Sm dst rest I. destruct (P Sm dst rest I) as (dst' & I' & HH & V). exists dst'. split; [exact I'|]. split; [exact HH|].
+  intros f Hf. destruct (V f Hf) as [RS RD].
+  assert (SV : forall heap, set_value te heap (TPtr (TStruct ty)) (DPtr (length (erefs st)) ty) = Ok (DPtr (length (erefs st)) ty))
+    by (intros heap; cbn [set_value]; rewrite name_eqb_refl'; reflexivity).
+  pose proof (need_d_pos (VStruct a ty fs)). destruct f as [|g]; [lia|].
+  split; [|split].
+  - rewrite rf_S. unfold rf_step. rewrite (RS g eq_refl). cbn [bind]. rewrite SV. reflexivity.
+  - intros a0 ty0 fs0 _ _. exact RD.
+  - intros _ _. eexists. split; [exact RD|apply SV].
+Qed.
+(* ... held by value (a struct-typed field, an element of []T, a value of map[K]T): the position holds a copy of the cell *)
+Lemma rt_struct_val ty fs c gfs st st' :
+  nm_lookup nm ty = Some c -> tm_lookup tm c = Some (TStruct ty) -> te_lookup te ty = Some gfs ->
+  Forall valid_rune c -> map lower_name (map fst fs) = F c ->
+  Forall (Forall valid_rune) (F c) -> Z.of_nat (length fs) <= 2147483647 -> has_dup (bound_names gfs (F c)) = false ->
+  Forall (fun f => forall gn gt, find_field gfs (lower_name (fst f)) = Some (gn, gt) -> sgv gt (snd f)) fs ->
+  Forall (fun f => find_field gfs (lower_name (fst f)) = None -> exists t', t' <> TIface /\ sgv t' (snd f) /\ elem_pos_ok (snd f)) fs ->
+  Forall (fun f => rt_ok (snd f)) fs ->
+  enm st = nm -> cls_ok F (ecls st) ->
+  write_fields fs (struct_prefix {| ecls := ecls st; erefs := erefs st ++ [(0, RStruct)]; enm := enm st; eout := eout st |} ty fs) = Ok st' ->
+  rt_post (TStruct ty) (VStruct 0 ty fs) st st'.
+Proof.
+  intros NL TM TE Vc HF VF LN NDB HK HU HR En C W.
+  destruct (struct_core 0 ty fs c gfs st st' (fun X => match X eq_refl with end) NL TM TE Vc HF VF LN NDB HK HU HR En C W) as (C2 & N2 & G2 & bs & ds & cells & B & LB & DS & P).
+  set (fields' := assoc_all (zeros_of te gfs) (bind_known gfs (map fst fs) ds)) in *.
+  split; [exact C2|]. split; [exact N2|]. split; [exact G2|].
+  exists bs, (DStructV ty fields'), (RObj ty (Some fields') :: cells).
+  split; [exact B|]. split; [exact LB|]. split; [apply dg_newv; assumption|].
+  intros Sm dst rest I. pose proof (Inv_len _ _ I) as IL. destruct (P Sm dst rest I) as (dst' & I' & HH & V). exists dst'. split; [exact I'|]. split; [exact HH|].
+  intros f Hf. destruct (V f Hf) as [RS RD].
+  assert (SV : set_value te (dheap dst') (TStruct ty) (DPtr (length (erefs st)) ty) = Ok (DStructV ty fields')).
+  { cbn [set_value]. rewrite name_eqb_refl'. rewrite HH, <- IL, nth_error_app2, Nat.sub_diag by lia. reflexivity. }
+  pose proof (need_d_pos (VStruct 0 ty fs)). destruct f as [|g]; [lia|].
+  split; [|split].
+  - rewrite rf_S. unfold rf_step. rewrite (RS g eq_refl). cbn [bind]. rewrite SV. reflexivity.
+  - intros a0 ty0 fs0 X NZ. inversion X; subst. contradiction.
+  - intros _ _. eexists. split; [exact RD|exact SV].
 Qed.
 
 (* ---- further leaves: doubles, byte slices, timestamps ---- *)
@@ -588,9 +678,9 @@ Proof.
   split; [exact C|]. split; [reflexivity|]. split; [split; cbn; lia|].
   exists (encode_binary bs), (DBytes bs), []. split; [apply ebytes_emit|]. split; [rewrite E; cbn; lia|]. split; [constructor|].
   intros _ dst rest I. exists dst. split; [exact I|]. split; [rewrite app_nil_r; reflexivity|].
-  intros f Hf. cbn [need_d] in Hf. destruct f as [|[|f]]; try lia. split; [|split; [intros a ty fs X; discriminate|]].
+  intros f Hf. cbn [need_d] in Hf. destruct f as [|[|f]]; try lia. split; [|split; [intros a ty fs X _; discriminate|]].
   - rewrite rf_S. unfold rf_step. rewrite rl_S. unfold rl_step. rewrite E. cbn [app bind]. rewrite T, D. cbn [bind set_slice]. reflexivity.
-  - intros _ _. eexists. split; [rewrite rd_S; apply rdv_binary|]. intros heap. reflexivity.
+  - intros _ _. eexists. split; [rewrite rd_S; apply rdv_binary|reflexivity].
 Qed.
 Lemma date_head s n : time_is_zero s n = false -> exists t tl, gencodeDate s n = t :: tl /\ (t = 74 \/ t = 75).
 Proof.
@@ -637,7 +727,7 @@ Proof.
     exists dst2. split; [exact I2|]. split; [rewrite H2', H1, <- app_assoc; reflexivity|].
     intros f Hf. cbn [need_ditems] in Hf. destruct f as [|f]; [lia|]. cbn [length]. rewrite rn_S. cbn [rn_step].
     rewrite <- app_assoc. destruct (V1 f ltac:(lia)) as (_ & _ & V1c). destruct (V1c NI EPx) as (d0 & RD0 & SV0).
-    rewrite (elem_of_rd _ e dst _ d0 d1 _ dst1 RD0 (SV0 _) NI). cbn [bind]. rewrite V2 by lia. reflexivity.
+    rewrite (elem_of_rd _ e dst _ d0 d1 _ dst1 RD0 SV0 NI). cbn [bind]. rewrite V2 by lia. reflexivity.
 Qed.
 
 Definition list_hdr (ltn : name) (n : Z) : bytes :=
@@ -723,18 +813,15 @@ Proof.
   split; [rewrite B2, PB, <- app_assoc; reflexivity|].
   split; [rewrite app_length; unfold list_hdr; destruct (n <=? 7); cbn [length]; lia|].
   split; [apply dg_slice; rewrite P1 in D2; exact D2|].
-  intros Sm dst rest I. pose proof (Inv_len _ _ I) as IL. destruct I as [I1 I2].
+  intros Sm dst rest I. pose proof (Inv_len _ _ I) as IL. pose proof I as I0. destruct I as (I1 & I2 & I3).
   set (dstT := {| dtypes := dtypes dst ++ [ltn]; dcls := dcls dst; dheap := dheap dst |}).
   assert (IP : Inv st2 (heap_push dstT (RList None))).
-  { split; [cbn; rewrite P3; exact I1|]. cbn [heap_push dheap dstT]. rewrite map_app, I2, P1. cbn [erefs st1]. rewrite map_app. reflexivity. }
+  { eapply (Inv_push st dst st2 dstT (RList None) 0 RSlice I0); [cbn; rewrite P3; exact I1|reflexivity|rewrite P1; reflexivity|reflexivity|discriminate]. }
   destruct (PE Sm (heap_push dstT (RList None)) rest IP) as (dst2 & J2 & H2h & V2).
-  cbn [heap_push dheap dstT] in H2h.
-  set (dst' := heap_set dst2 (length (dheap dst)) (RList (Some (DSlice e ds)))).
-  assert (HH : dheap dst' = dheap dst ++ RList (Some (DSlice e ds)) :: c2).
-  { unfold dst', heap_set. cbn [dheap]. rewrite H2h, <- app_assoc. cbn [app]. apply list_set_app. }
-  exists dst'. split.
-  { destruct J2 as [J21 J22]. split; [exact J21|]. rewrite HH. rewrite <- J22, H2h, <- app_assoc. rewrite !map_app. reflexivity. }
-  split; [exact HH|].
+  cbn [heap_push dheap dstT] in H2h. rewrite <- app_assoc in H2h. cbn [app] in H2h.
+  destruct (Inv_fill st' dst2 (dheap dst) (RList None) (RList (Some (DSlice e ds))) c2 J2 H2h eq_refl) as [IF HH]; [intros ty0 o X; discriminate|].
+  set (dst' := heap_set dst2 (length (dheap dst)) (RList (Some (DSlice e ds)))) in *.
+  exists dst'. split; [exact IF|]. split; [exact HH|].
   intros f Hf. rewrite need_d_slice in Hf. destruct f as [|[|g]]; try lia.
   assert (CT : n <= Z.of_nat (length (b2 ++ rest))) by (rewrite app_length; unfold n; lia).
   assert (KV : forall R, R_rn R e (Z.to_nat n) (heap_push dstT (RList None)) (b2 ++ rest) = Ok (ds, rest, dst2) ->
@@ -753,8 +840,8 @@ Proof.
   { rewrite rd_S, D2', rl_S. exact D3. }
   split; [|split].
   - rewrite rf_S. unfold rf_step. rewrite rl_S, D1. cbn [bind set_slice]. rewrite gtype_eqb_refl. reflexivity.
-  - intros a0 ty0 fs0 X. discriminate.
-  - intros _ _. eexists. split; [exact RD|]. intros heap. cbn [set_value]. rewrite gtype_eqb_refl. reflexivity.
+  - intros a0 ty0 fs0 X _. discriminate.
+  - intros _ _. eexists. split; [exact RD|]. cbn [set_value]. rewrite gtype_eqb_refl. reflexivity.
 Qed.
 
 (* ---- maps ---- *)
@@ -859,7 +946,7 @@ Proof.
       by (destruct kt; try (symmetry; apply SVk); contradiction).
     cbn [bind].
     replace (match vt with TIface => Ok d0x | _ => set_value te (dheap dst2) vt d0x end) with (Ok dx : result dval)
-      by (destruct vt; try (symmetry; apply SVx); contradiction).
+      by (destruct vt; try (symmetry; exact SVx); contradiction).
     cbn [bind]. rewrite HSk.
     rewrite entries_put_fresh by (intros k' v' I'; apply (FR k (or_introl eq_refl) k' v' I')).
     rewrite (V3 (S f') (acc ++ [(key_img k, dx)])); [cbn [map fst combine]; rewrite <- app_assoc; reflexivity|lia|].
@@ -905,9 +992,9 @@ Proof.
   exists [78], (DMapV kt vt []), []. split; [apply ebytes_emit|]. split; [cbn; lia|]. split; [apply dg_map0|].
   intros _ dst rest I. exists dst. split; [exact I|]. split; [rewrite app_nil_r; reflexivity|].
   intros f Hf. rewrite need_d_map in Hf. cbn [need_dentries] in Hf. destruct f as [|[|f]]; try lia.
-  split; [|split; [intros a ty0 fs X; discriminate|]].
+  split; [|split; [intros a ty0 fs X _; discriminate|]].
   - rewrite rf_S. unfold rf_step. rewrite rm_S. reflexivity.
-  - intros _ _. exists DNil. split; [reflexivity|]. intros heap. reflexivity.
+  - intros _ _. exists DNil. split; reflexivity.
 Qed.
 
 Lemma rt_map ty e0 es kt vt st st' : kt <> TIface -> vt <> TIface ->
@@ -934,20 +1021,19 @@ Proof.
   split; [rewrite ebytes_emit, B2, PB, <- !app_assoc; reflexivity|].
   split; [rewrite !app_length; cbn [length]; lia|].
   split; [apply dg_map; rewrite P1 in D2; exact D2|].
-  intros Sm dst rest I. pose proof (Inv_len _ _ I) as IL. destruct I as [I1 I2].
+  intros Sm dst rest I. pose proof (Inv_len _ _ I) as IL. pose proof I as I0. destruct I as (I1 & I2 & I3).
   assert (Sm3 : small s3) by exact Sm.
   set (dstT := map_dstT dst ty).
   assert (DTC : dcls dstT = dcls dst /\ dheap dstT = dheap dst) by (unfold dstT, map_dstT; destruct (nm_lookup nm ty); split; reflexivity).
   destruct DTC as [DC DH].
   assert (IP : Inv st2 (heap_push dstT (Decoder.RMap None))).
-  { split; [cbn; rewrite P3, DC; exact I1|]. cbn [heap_push dheap]. rewrite DH, map_app, I2, P1. cbn [erefs st1]. rewrite map_app. reflexivity. }
+  { eapply (Inv_push st dst st2 dstT (Decoder.RMap None) 0 Encoder.RMap I0); [rewrite P3, DC; exact I1|exact DH|rewrite P1; reflexivity|reflexivity|discriminate]. }
   destruct (PE Sm3 (heap_push dstT (Decoder.RMap None)) rest IP) as (dst2 & J2 & H2h & V2). cbn [heap_push dheap] in H2h. rewrite DH in H2h.
-  set (dst' := heap_set dst2 (length (dheap dst)) (Decoder.RMap (Some (DMapV kt vt des)))).
-  assert (HH : dheap dst' = dheap dst ++ Decoder.RMap (Some (DMapV kt vt des)) :: c2).
-  { unfold dst', heap_set. cbn [dheap]. rewrite H2h, <- app_assoc. cbn [app]. apply list_set_app. }
-  exists dst'. split.
-  { destruct J2 as [J21 J22]. split; [exact J21|]. rewrite HH. cbn [emit erefs]. rewrite <- J22, H2h, <- app_assoc. rewrite !map_app. reflexivity. }
-  split; [exact HH|].
+  rewrite <- app_assoc in H2h. cbn [app] in H2h.
+  assert (J2' : Inv (emit s3 [g_endFlag]) dst2) by exact J2.
+  destruct (Inv_fill (emit s3 [g_endFlag]) dst2 (dheap dst) (Decoder.RMap None) (Decoder.RMap (Some (DMapV kt vt des))) c2 J2' H2h eq_refl) as [IF HH]; [intros ty0 o X; discriminate|].
+  set (dst' := heap_set dst2 (length (dheap dst)) (Decoder.RMap (Some (DMapV kt vt des)))) in *.
+  exists dst'. split; [exact IF|]. split; [exact HH|].
   intros f Hf. rewrite need_d_map in Hf. destruct f as [|[|g]]; try lia.
   assert (MB : forall g', (need_dentries (e0 :: es) <= g')%nat ->
      map_body (readers_at te tm g') kt vt dstT (b2 ++ 90 :: rest) = Ok (DMapV kt vt des, rest, dst')).
@@ -957,10 +1043,10 @@ Proof.
   destruct (map_dec (readers_at te tm (S g)) dst ty kt vt (b2 ++ 90 :: rest) HM) as (_ & _ & _ & RDm).
   split; [|split].
   - rewrite rf_S. unfold rf_step. rewrite rm_S, RM. apply MB. lia.
-  - intros a0 ty0 fs0 X. discriminate.
+  - intros a0 ty0 fs0 X _. discriminate.
   - intros _ EP. cbn [elem_pos_ok] in EP. exists (DMapV kt vt des). split.
     + rewrite rd_S, (RDm EP). apply MB. lia.
-    + intros heap. cbn [set_value]. rewrite !gtype_eqb_refl. reflexivity.
+    + cbn [set_value]. rewrite !gtype_eqb_refl. reflexivity.
 Qed.
 
 (* ---- the theorem ---- *)
@@ -1012,19 +1098,21 @@ Proof.
       * intros R dst rest. rewrite E. cbn [app]. unfold rf_step. rewrite rs_date by exact T. rewrite DT. cbn [bind fst snd set_value]. reflexivity.
       * intros f dst rest. rewrite E. cbn [app]. exists (DTime s (n - n mod 1000000)). split; [rewrite rd_S, rdv_date by exact T; rewrite DT; reflexivity|intros heap; reflexivity].
   - (* struct *)
-    inversion Hs as [| | | | | | | | | |? ? ? c gfs NZ TA NL TM TE Vc HF VF LN HK HU]; subst.
-    rewrite write_data_struct in W. unfold check_ref in W.
-    destruct (ref_find (erefs st) a RStruct 0) as [i|] eqn:RF.
-    + inversion W; subst st'. apply rt_ref; [exact RF|apply dg_hit; exact RF|exact C].
-    + eapply rt_struct_new; try eassumption. reflexivity.
+    inversion Hs as [| | | | | | | | | |? ? ? c gfs NZ TA NL TM TE Vc HF VF LN NDB HK HU|? ? c gfs NL TM TE Vc HF VF LN NDB HK HU]; subst.
+    + rewrite write_data_struct in W. unfold check_ref in W.
+      destruct (ref_find (erefs st) a RStruct 0) as [i|] eqn:RF.
+      * inversion W; subst st'. apply rt_ref; [exact RF|apply dg_hit; exact RF|exact C].
+      * eapply rt_struct_new; try eassumption. reflexivity.
+    + rewrite write_data_struct in W. unfold check_ref in W. rewrite ref_find_zero in W.
+      eapply rt_struct_val; eassumption.
   - (* list *)
-    inversion Hs as [| | | | | |? ? ? ltn NL NI TM V NE LN HS HP| | | |]; subst.
+    inversion Hs as [| | | | | |? ? ? ltn NL NI TM V NE LN HS HP| | | | |]; subst.
     rewrite write_data_slice in W. replace (if (length l =? 0)%nat then 0 else 0) with 0 in W by (destruct (length l =? 0)%nat; reflexivity).
     destruct (check_ref_zero st RSlice) as [st1 CR]. unfold check_ref in CR. rewrite ref_find_zero in CR. inversion CR; subst st1.
     unfold check_ref in W. rewrite ref_find_zero in W.
     eapply rt_slice; try eassumption.
   - (* map *)
-    inversion Hs as [| | | | | | |? ? ? ? NK NV HM KO ND HS| | |]; subst.
+    inversion Hs as [| | | | | | |? ? ? ? NK NV HM KO ND HS| | | |]; subst.
     assert (HR : Forall (fun e => rt_ok (snd e)) es) by (eapply Forall_impl; [|exact H]; intros e0 [_ X]; exact X).
     rewrite write_data_map in W. destruct es as [|e0 es0].
     + inversion W; subst st'. apply rt_map0. exact C.
@@ -1061,16 +1149,18 @@ Theorem graph_message_roundtrip a ty fs st' :
                    dheap dst' = RObj ty (Some (assoc_all (zeros_of te gfs) (bind_known gfs (map fst fs) ds))) :: cells.
 Proof.
   intros Hs W Sm.
+  assert (NZ : a <> 0) by (inversion Hs; assumption).
   destruct (graph_roundtrip _ _ (estate0 nm) st' eq_refl Hs (fun c fs0 (I : In (c, fs0) []) => match I with end) W)
     as (_ & _ & _ & bs & d & cells & B & _ & D & P).
-  inversion D as [| | | | | | | | |? ? ? ? ? RF|? ? ? ? gfs ds cells' ? RF TE DS| | |]; subst; [discriminate|].
+  inversion D as [| | | | | | | | |? ? ? ? ? RF|? ? ? ? gfs ds cells' ? RF TE DS|? ? ? ? ? ? ? TE DS| | |]; subst; [discriminate| |contradiction].
   exists gfs, ds, cells'. split; [exact TE|]. split.
   { clear - DS. remember (map snd fs) as l eqn:EL. assert (LL : length l = length fs) by (subst l; apply map_length). rewrite <- LL. clear EL LL.
     induction DS; cbn [length]; [reflexivity|]. f_equal. assumption. }
   split; [exact DS|]. intros f Hf.
-  destruct (P Sm dstate0 [] (conj eq_refl eq_refl)) as (dst' & _ & HH & V).
+  assert (I0 : Inv (estate0 nm) dstate0) by (split; [reflexivity|split; [reflexivity|intros i a0 N; destruct i; discriminate]]).
+  destruct (P Sm dstate0 [] I0) as (dst' & _ & HH & V).
   exists dst'. destruct (V f Hf) as [_ [V2 _]]. split; [|exact HH].
-  cbn in B. rewrite B. rewrite <- (app_nil_r bs). apply (V2 a ty fs eq_refl).
+  cbn in B. rewrite B. rewrite <- (app_nil_r bs). apply (V2 a ty fs eq_refl NZ).
 Qed.
 
 (* ToObject(ToBytes(v)) with the fuel the decoder model gives itself *)
@@ -1119,7 +1209,7 @@ Proof.
     destruct (P2 Sm dst1 rest I1) as (dst2 & I2 & H2' & V2).
     exists dst2. split; [exact I2|]. split; [rewrite H2', H1, <- app_assoc; reflexivity|].
     intros f Hf. cbn [need_ditems] in Hf. cbn [length read_n]. rewrite <- app_assoc.
-    destruct (V1 f ltac:(lia)) as [_ [V1b _]]. rewrite (V1b a ty fs eq_refl). cbn [bind]. rewrite V2 by lia. reflexivity.
+    destruct (V1 f ltac:(lia)) as [_ [V1b _]]. rewrite (V1b a ty fs eq_refl ltac:(inversion Sv; assumption)). cbn [bind]. rewrite V2 by lia. reflexivity.
 Qed.
 
 (* ---- sharing: a decoded pointer is the ordinal of the address, and ordinals identify addresses ---- *)
@@ -1134,6 +1224,7 @@ with dges_extends : forall refs l ds cells refs', dges refs l ds cells refs' -> 
 Proof.
   - intros refs v d cells refs' H. destruct H; try (exists []; rewrite app_nil_r; reflexivity).
     + match goal with X : dgs _ _ _ _ _ |- _ => destruct (dgs_extends _ _ _ _ _ X) as [more E] end. exists ((a, RStruct) :: more). rewrite E, <- app_assoc. reflexivity.
+    + match goal with X : dgs _ _ _ _ _ |- _ => destruct (dgs_extends _ _ _ _ _ X) as [more E] end. exists ((0, RStruct) :: more). rewrite E, <- app_assoc. reflexivity.
     + destruct (dgs_extends _ _ _ _ _ H) as [more E]. exists ((0, RSlice) :: more). rewrite E, <- app_assoc. reflexivity.
     + destruct (dges_extends _ _ _ _ _ H) as [more E]. exists ((0, Encoder.RMap) :: more). rewrite E, <- app_assoc. reflexivity.
   - intros refs l ds cells refs' H. destruct H; [exists []; rewrite app_nil_r; reflexivity|].
@@ -1149,7 +1240,8 @@ Theorem decoded_pointer_is_ordinal refs v d cells refs' a : dg refs v d cells re
   (v = VSeen RStruct a \/ exists ty fs, v = VStruct a ty fs) ->
   exists i ty, d = DPtr (Z.to_nat i) ty /\ forall more, ref_find (refs' ++ more) a RStruct 0 = Some i.
 Proof.
-  intros D NZ V. inversion D; subst; try (destruct V as [V|(ty0 & fs0 & V)]; discriminate).
+  intros D NZ V. inversion D; subst; try (destruct V as [V|(ty0 & fs0 & V)]; discriminate);
+    try (destruct V as [V|(ty0 & fs0 & V)]; inversion V; subst; contradiction).
   - destruct V as [V|(ty0 & fs0 & V)]; inversion V; subst. eexists; eexists. split; [reflexivity|]. intros more. apply ref_find_app_hit. assumption.
   - destruct V as [V|(ty0 & fs0 & V)]; inversion V; subst. eexists; eexists. split; [reflexivity|]. intros more. apply ref_find_app_hit. assumption.
   - destruct V as [V|(ty0 & fs0 & V)]; inversion V; subst.
